@@ -111,7 +111,7 @@ Lemma on_select_confirmed s1 g1 r :
   let s' := if get_option (st_ctx s1) opt_auto_commit
             then fst (commit cfg translate (st_with_ctx s1 c2))
             else st_with_ctx s1 (ctx_with_comp c2 (fst (forward (cx_comp c2)))) in
-  on_select cfg translate s1 = mkSt (st_ctx s') (st_nav_input s') [] (st_commit s') (st_odd s').
+  on_select cfg translate s1 = mkSt (st_ctx s') (st_nav_input s') [] (st_commit s') (st_odd s') (st_kb_last s').
 Proof.
   intros Hsegs Hend. cbv zeta. unfold on_select. rewrite Hsegs, Hend, Nat.eqb_refl.
   unfold sg_set_back. rewrite Hsegs. reflexivity.
@@ -238,7 +238,7 @@ Qed.
 Lemma on_select_appends s : appends s (on_select cfg translate s).
 Proof.
   unfold on_select.
-  match goal with |- appends s (mkSt (st_ctx ?x) _ _ (st_commit ?x) _) => assert (H : appends s x) end.
+  match goal with |- appends s (mkSt (st_ctx ?x) _ _ (st_commit ?x) _ _) => assert (H : appends s x) end.
   { destruct (sg_segs (cx_comp (st_ctx s))) as [|g0 r]; [apply with_ctx_appends|].
     destruct (s_end (seg_close g0) =? length (cx_input (st_ctx s))).
     - match goal with |- context [if ?b then _ else _] => destruct b end;
@@ -476,10 +476,46 @@ Proof.
   - apply pair_punct_appends.
 Qed.
 
-Lemma proc_of_appends i s k : appends s (fst (proc_of cfg translate i s k)).
+Lemma reinterpret_appends s k : appends s (fst (reinterpret_paging_key cfg translate s k)).
 Proof.
-  destruct i; cbn [proc_of];
-    [apply speller_appends | apply punctuator_appends | apply selector_appends | apply navigator_appends | apply editor_appends].
+  unfold reinterpret_paging_key. destruct (k_release k); [apply appends_refl|]. cbv zeta.
+  repeat match goal with
+         | |- appends s (fst (if ?b then _ else _)) => destruct b
+         | |- appends s (fst (match ?l with [] => _ | _ :: _ => _ end)) => destruct l
+         end; cbn [fst]; apply appends_eq; reflexivity.
+Qed.
+
+Lemma kb_perform_action_appends s a : appends s (kb_perform_action cfg translate s a).
+Proof. destruct a; cbn [kb_perform_action]; try apply appends_refl; apply on_ctx_appends. Qed.
+
+Lemma fold_replay_appends (f : state -> key -> state * bool) keys :
+  (forall x tk, appends x (fst (f x tk))) -> forall s, appends s (fold_left (fun x tk => fst (f x tk)) keys s).
+Proof.
+  intros Hf. induction keys as [|tk r IH]; intros s; [apply appends_refl|]. cbn [fold_left].
+  eapply appends_trans; [apply Hf | apply IH].
+Qed.
+
+Lemma key_binder_appends R red s k :
+  (forall f, R = Some f -> forall x tk, appends x (fst (f x tk))) ->
+  appends s (fst (key_binder_process cfg translate R red s k)).
+Proof.
+  intros HR. unfold key_binder_process.
+  destruct (red || match cf_bindings cfg with [] => true | _ => false end); [apply appends_refl|].
+  pose proof (reinterpret_appends s k) as H1.
+  destruct (reinterpret_paging_key cfg translate s k) as [s1 re]. cbn [fst] in H1. destruct re; [exact H1|].
+  destruct (find _ (kb_vector cfg k)) as [b|]; [|exact H1].
+  destruct (kb_act b) as [keys | o | o | o | sc] eqn:Ea; cbn [fst];
+    try (rewrite <- Ea; eapply appends_trans; [exact H1 | apply kb_perform_action_appends]).
+  destruct keys as [|tk keys]; [exact H1|]. destruct R as [f|]; cbn [fst]; (eapply appends_trans; [exact H1|]).
+  - apply fold_replay_appends, (HR f eq_refl).
+  - apply on_ctx_appends.
+Qed.
+
+Lemma proc_of_appends kb i s k : (forall x, appends x (fst (kb x k))) -> appends s (fst (proc_of cfg translate kb i s k)).
+Proof.
+  intros Hkb. destruct i; cbn [proc_of];
+    [apply speller_appends | apply punctuator_appends | apply selector_appends | apply navigator_appends | apply editor_appends
+     | apply Hkb].
 Qed.
 
 Lemma run_processors_appends ps k :
@@ -490,13 +526,14 @@ Proof.
   destruct ret; cbn [fst]; try exact H1. eapply appends_trans; [exact H1|]. apply IH. intros q Hq. apply Hp. right; exact Hq.
 Qed.
 
-Lemma process_key_appends s k : appends s (fst (process_key cfg translate s k)).
+Lemma process_key_gen_appends kb s k :
+  (forall x, appends x (fst (kb x k))) -> appends s (fst (process_key_gen cfg translate kb s k)).
 Proof.
-  unfold process_key.
-  assert (H1 : appends s (fst (run_processors (processors cfg translate) s k))).
+  intros Hkb. unfold process_key_gen.
+  assert (H1 : appends s (fst (run_processors (processors cfg translate kb) s k))).
   { apply run_processors_appends. intros p Hp x. unfold processors in Hp. apply in_map_iff in Hp as (i & <- & _).
-    apply proc_of_appends. }
-  destruct (run_processors (processors cfg translate) s k) as [s1 ret]. cbn [fst] in H1.
+    apply proc_of_appends, Hkb. }
+  destruct (run_processors (processors cfg translate kb) s k) as [s1 ret]. cbn [fst] in H1.
   assert (H2 : appends s (on_ctx s1 (fun c => ctx_with_hist c (hist_push_key (cx_hist c) k))))
     by (eapply appends_trans; [exact H1 | apply on_ctx_appends]).
   pose proof (shape_appends (on_ctx s1 (fun c => ctx_with_hist c (hist_push_key (cx_hist c) k))) k) as Hs.
@@ -504,6 +541,15 @@ Proof.
     destruct (shape_process (on_ctx s1 (fun c => ctx_with_hist c (hist_push_key (cx_hist c) k))) k) as [sx rx];
     cbn [fst] in Hs; destruct rx; cbn [fst]; eapply appends_trans; eassumption.
 Qed.
+
+Lemma process_key_n_appends fuel : forall red s k, appends s (fst (process_key_n cfg translate fuel red s k)).
+Proof.
+  induction fuel as [|f IH]; intros red s k; cbn [process_key_n]; apply process_key_gen_appends; intros x;
+    apply key_binder_appends; intros f0 X; [discriminate X|]. injection X as <-. intros y tk. apply IH.
+Qed.
+
+Lemma process_key_appends s k : appends s (fst (process_key cfg translate s k)).
+Proof. apply process_key_n_appends. Qed.
 
 Lemma on_current_page_appends s i verb :
   (forall x n, appends x (fst (verb x n))) -> appends s (fst (on_current_page cfg s i verb)).
@@ -592,7 +638,7 @@ Proof.
     destruct (cx_err (st_ctx (match ve with Some e => st_with_ctx s (ctx_fail (st_ctx s) e) | None => s end))) eqn:Ee;
       [discriminate|]. intros _. cbn [fst snd read_of].
     split; [reflexivity|]. split; [destruct ve; cbn; exact Ec | eexists; reflexivity].
-  - set (s1 := mkSt (st_ctx s) (st_nav_input s) (st_spans s) [] (st_odd s)).
+  - set (s1 := mkSt (st_ctx s) (st_nav_input s) (st_spans s) [] (st_odd s) (st_kb_last s)).
     destruct (view_of cfg s1) as [v ve].
     destruct (cx_err (st_ctx (match ve with Some e => st_with_ctx s1 (ctx_fail (st_ctx s1) e) | None => s1 end))) eqn:Ee;
       [discriminate|]. intros _. cbn [fst snd read_of].
